@@ -520,6 +520,7 @@ func (a *Act) landPanics() {
 		pv = Ite(a.panics[i].st.reach, a.panics[i].val, pv)
 	}
 	pv = tr.define("panicval", "Val", pv)
+	tr.assume(Implies(st.reach, Not(Eq(pv, "VNil"))), "recover() returns a non-nil value while panicking (Go >= 1.21: panic(nil) becomes *runtime.PanicNilError)")
 	a.panicking = "true"
 	a.panicVal = pv
 	a.panics = nil
